@@ -3,11 +3,11 @@
 // key whose "signature" is the digest it was handed.  Every assertion is phrased as equality of digests
 // obtained through `new_hasher`, so that a native replay (no stubs, real SHA-2) evaluates the same
 // statement with real primitives.
-#![allow(unused, dead_code)]
+#![allow(unused, dead_code, unsafe_code, static_mut_refs)]
 use bytes::Bytes;
 use digest::DynDigest;
 
-use super::__verif_common::*;
+use crate::__verif_common::*;
 use crate::crypto::hash::HashAlgorithm;
 use crate::crypto::public_key::PublicKeyAlgorithm;
 use crate::errors::Result;
@@ -47,7 +47,7 @@ macro_rules! sproof {
         #[kani::stub(std::fmt::format, crate::__verif_common::stub_format)]
         #[kani::stub(snafu::backtrace_collection_enabled, crate::__verif_common::stub_bt)]
         #[kani::stub(core::fmt::write, crate::__verif_common::stub_fmt_write)]
-        #[kani::stub(crate::crypto::hash::HashAlgorithm::new_hasher, stub_new_hasher)]
+        #[kani::stub(crate::crypto::hash::HashAlgorithm::new_hasher, crate::packet::signature::types::__verif_c11_sig::stub_new_hasher)]
         fn $name() $body
     };
 }
@@ -64,19 +64,21 @@ pub struct MockKey<const B: usize> {
     pub params: PublicParams,
 }
 impl<const B: usize> MockKey<B> {
-    pub fn new(ver: KeyVersion, body: [u8; B], idb: u8) -> Self {
+    /// never dropped: dropping the `Bytes` inside PublicParams goes through the Bytes vtable's function
+    /// pointers, which CBMC resolves to *every* drop implementation (incl. deallocating ones)
+    pub fn new(ver: KeyVersion, body: [u8; B], idb: u8) -> core::mem::ManuallyDrop<Self> {
         let fp = match ver {
             KeyVersion::V6 => Fingerprint::V6([idb; 32]),
             _ => Fingerprint::V4([idb; 20]),
         };
-        MockKey {
+        core::mem::ManuallyDrop::new(MockKey {
             ver,
             body,
             alg: PublicKeyAlgorithm::Private100,
             fp,
             kid: KeyId::new([idb; 8]),
             params: PublicParams::Unknown { data: Bytes::new() },
-        }
+        })
     }
 }
 impl<const B: usize> Serialize for MockKey<B> {
@@ -111,25 +113,41 @@ impl<const B: usize> KeyDetails for MockKey<B> {
         &self.params
     }
 }
+/// What the mock key was asked to sign / is expected to verify.  Kept in statics instead of inside the
+/// SignatureBytes: every heap-backed `Bytes` drags its vtable clone/drop function pointers and atomics
+/// into the formula (measured: sign_key with an empty hashed area ran out of 6 GB).
+pub static mut SIGNED: [u8; 96] = [0; 96];
+pub static mut SIGNED_LEN: usize = 0;
+pub static mut EXPECT: [u8; 96] = [0; 96];
+pub static mut EXPECT_LEN: usize = 0;
+pub fn signed() -> &'static [u8] {
+    unsafe { &SIGNED[..SIGNED_LEN] }
+}
+pub fn expect_digest(d: &[u8]) {
+    unsafe {
+        EXPECT_LEN = d.len();
+        EXPECT[..d.len()].copy_from_slice(d);
+    }
+}
 impl<const B: usize> SigningKey for MockKey<B> {
     fn sign(&self, _pw: &Password, _hash: HashAlgorithm, data: &[u8]) -> Result<SignatureBytes> {
-        Ok(SignatureBytes::Native(Bytes::copy_from_slice(data)))
+        unsafe {
+            SIGNED_LEN = data.len();
+            SIGNED[..data.len()].copy_from_slice(data);
+        }
+        Ok(SignatureBytes::Native(Bytes::from_static(b"mock")))
     }
     fn hash_alg(&self) -> HashAlgorithm {
         HashAlgorithm::Sha256
     }
 }
 impl<const B: usize> VerifyingKey for MockKey<B> {
-    fn verify(&self, _hash: HashAlgorithm, data: &[u8], sig: &SignatureBytes) -> Result<()> {
-        match sig {
-            SignatureBytes::Native(b) => {
-                if eq_bytes(data, &b[..]) {
-                    Ok(())
-                } else {
-                    Err(crate::errors::Error::InvalidInput { backtrace: None })
-                }
-            }
-            _ => Err(crate::errors::Error::InvalidInput { backtrace: None }),
+    fn verify(&self, _hash: HashAlgorithm, data: &[u8], _sig: &SignatureBytes) -> Result<()> {
+        let ok = unsafe { eq_bytes(data, &EXPECT[..EXPECT_LEN]) };
+        if ok {
+            Ok(())
+        } else {
+            Err(crate::errors::Error::InvalidInput { backtrace: None })
         }
     }
 }
@@ -297,12 +315,14 @@ impl RefT {
 }
 
 /// hashed area used throughout: creation time `t`, plus one opaque subpacket (type `tt`, critical `c`,
-/// two body bytes).  Returns the real objects and the independent wire form.
-pub fn hashed_area(t: u32, tt: u8, c: bool, b0: u8, b1: u8) -> (Vec<Subpacket>, [u8; 10]) {
-    let (st, _) = SubpacketType::from_u8(tt);
-    let data = match st {
-        SubpacketType::Experimental(_) => SubpacketData::Experimental(tt, Bytes::copy_from_slice(&[b0, b1])),
-        _ => SubpacketData::Other(tt, Bytes::copy_from_slice(&[b0, b1])),
+/// two body bytes).  `EXP` (concrete per harness instance) selects the Experimental (100..=110) or the
+/// Other representation: an enum value whose *variant* is symbolic makes CBMC explore every arm of every
+/// later match on it.  Returns the real objects and the independent wire form.
+pub fn hashed_area<const EXP: bool>(t: u32, tt: u8, c: bool, b0: u8, b1: u8) -> ([Subpacket; 2], [u8; 10]) {
+    let data = if EXP {
+        SubpacketData::Experimental(tt, Bytes::copy_from_slice(&[b0, b1]))
+    } else {
+        SubpacketData::Other(tt, Bytes::copy_from_slice(&[b0, b1]))
     };
     let sp1 = Subpacket {
         is_critical: false,
@@ -312,7 +332,15 @@ pub fn hashed_area(t: u32, tt: u8, c: bool, b0: u8, b1: u8) -> (Vec<Subpacket>, 
     let sp2 = Subpacket { is_critical: c, data, len: SubpacketLength::One(3) };
     let tb = t.to_be_bytes();
     let wire = [5, 2, tb[0], tb[1], tb[2], tb[3], 3, tt | ((c as u8) << 7), b0, b1];
-    (vec![sp1, sp2], wire)
+    ([sp1, sp2], wire)
+}
+/// type ids for the chosen representation
+pub fn tt_ok<const EXP: bool>(tt: u8) -> bool {
+    if EXP {
+        tt >= 100 && tt <= 110
+    } else {
+        tt < 128 && is_other(tt)
+    }
 }
 
 /// type ids that the crate represents as opaque (Other / Experimental) subpackets
@@ -323,190 +351,252 @@ pub fn is_other(tt: u8) -> bool {
     matches!(SubpacketType::from_u8(tt).0, SubpacketType::Other(_))
 }
 
-fn sig_digest(sig: &Signature) -> Option<&[u8]> {
-    match sig.signature() {
-        Some(SignatureBytes::Native(b)) => Some(&b[..]),
-        _ => None,
+/// Signature value built directly (this module is injected as a child of packet/signature/types.rs).
+/// Values that are moved through `Result<Signature>`/`Option<Signature>` lose the constness of their inner
+/// Vec pointers/lengths in CBMC (niche-encoded wrappers are accessed through byte-level casts), after which
+/// every loop over the subpacket areas is unrolled over garbage elements.
+pub fn mk_sig(config: SignatureConfig, signed_hash_value: [u8; 2]) -> Signature {
+    Signature {
+        packet_header: crate::packet::PacketHeader::new_fixed(Tag::Signature, 0),
+        inner: crate::packet::signature::types::InnerSignature::Known {
+            config,
+            signed_hash_value,
+            signature: SignatureBytes::Native(Bytes::from_static(b"mock")),
+        },
     }
 }
 
-const SALT16: [u8; 16] = [0xA0, 0xA1, 0xA2, 0xA3, 0xA4, 0xA5, 0xA6, 0xA7, 0xA8, 0xA9, 0xAA, 0xAB, 0xAC, 0xAD, 0xAE, 0xAF];
+/// the digest the mock key was handed by the last sign call
+pub fn sig_digest(_sig: &Signature) -> Option<&'static [u8]> {
+    Some(signed())
+}
+
+pub const SALT16: [u8; 16] = [0xA0, 0xA1, 0xA2, 0xA3, 0xA4, 0xA5, 0xA6, 0xA7, 0xA8, 0xA9, 0xAA, 0xAB, 0xAC, 0xAD, 0xAE, 0xAF];
+
+
+/// builds a SignatureConfig whose subpacket areas are stack-backed (see common.rs: stack_vec)
+macro_rules! mk_cfg {
+    ($cfg:ident, $harr:ident, $ustore:ident, $v6:expr, $typ:expr, $pk:expr, $salt:expr, $hashed:expr) => {
+        let mut $harr = core::mem::ManuallyDrop::new($hashed);
+        let mut $ustore = core::mem::MaybeUninit::<[Subpacket; 1]>::uninit();
+        let mut $cfg = if $v6 {
+            SignatureConfig::v6_with_salt($typ, PublicKeyAlgorithm::from($pk), HashAlgorithm::Sha256, $salt.to_vec())
+        } else {
+            SignatureConfig::v4($typ, PublicKeyAlgorithm::from($pk), HashAlgorithm::Sha256)
+        };
+        $cfg.hashed_subpackets = stack_vec!($harr, 2);
+        $cfg.unhashed_subpackets = stack_vec_empty!($ustore, Subpacket);
+    };
+}
+
+/// compares the digest handed to the mock key with the reference transcript's digest
+fn check_digest(rt: &RefT, what: &'static str) -> bool {
+    match rt.digest(HashAlgorithm::Sha256) {
+        Some(w) => {
+            let ok = eq_bytes(&w, signed());
+            core::mem::forget(w);
+            ok
+        }
+        None => false,
+    }
+}
 
 // ---------------------------------------------------------------------------------------------
-/// data signature, sign side: SignatureConfig::sign -> digest handed to the key == RFC transcript
-fn sign_data<const L: usize>(v6: bool) {
+// One direction per harness (sign side: digest handed to the key == reference; verify side: a signature
+// carrying the reference digest is accepted).  Both directions in one harness made CBMC report spurious
+// failures of free()'s preconditions (the combined formula presumably merged the two hasher boxes).
+
+/// reference transcript of a data signature
+fn ref_data<const L: usize>(rt: &mut RefT, v6: bool, salt: &[u8; 16], data: &[u8; L], text: bool, pk: u8, wire: &[u8; 10]) {
+    if v6 {
+        rt.put_all(salt);
+    }
+    let mut i = 0;
+    let mut prev_cr = false;
+    while i < L {
+        let ch = data[i];
+        if text && ch == b'\n' && !prev_cr {
+            rt.put(b'\r');
+        }
+        rt.put(ch);
+        prev_cr = ch == b'\r';
+        i += 1;
+    }
+    rt.sig_fields(v6, if text { 1 } else { 0 }, pk, 8, wire);
+}
+
+/// data signature, sign side
+fn sign_data<const L: usize, const EXP: bool>(v6: bool) {
     let data: [u8; L] = kani::any();
     let text: bool = kani::any();
     let pk: u8 = kani::any();
     let t: u32 = kani::any();
     let tt: u8 = kani::any();
-    let c: bool = kani::any();
-    kani::assume(opaque_type(tt));
-    let (hashed, wire) = hashed_area(t, tt, c, kani::any(), kani::any());
+    // unknown *critical* subpackets make sign() fail and drop the (stack-backed) config: see c11_fields_*
+    let c: bool = if EXP { kani::any() } else { false };
+    kani::assume(tt_ok::<EXP>(tt));
     let typ = if text { SignatureType::Text } else { SignatureType::Binary };
-    let halg = HashAlgorithm::Sha256;
     let mut salt = SALT16;
     salt[0] = kani::any();
     salt[15] = kani::any();
-    let mut cfg = if v6 {
-        SignatureConfig::v6_with_salt(typ, PublicKeyAlgorithm::from(pk), halg, salt.to_vec())
-    } else {
-        SignatureConfig::v4(typ, PublicKeyAlgorithm::from(pk), halg)
-    };
-    cfg.hashed_subpackets = hashed;
+    let (hashed, wire) = hashed_area::<EXP>(t, tt, c, kani::any(), kani::any());
+    mk_cfg!(cfg, harr, ustore, v6, typ, pk, salt, hashed);
     let key = MockKey::<4>::new(if v6 { KeyVersion::V6 } else { KeyVersion::V4 }, kani::any(), 7);
-    let r = okf(cfg.sign(&key, &Password::empty(), &data[..]));
-    // RFC 9580 5.2.3.7: unknown critical subpacket => the library refuses (C15)
-    let must_fail = c && is_other(tt);
-    kani::cover!(must_fail, "unknown critical subpacket");
     kani::cover!(text && L > 0 && data[0] == b'\n', "text with bare LF");
-    match r {
-        None => assert!(must_fail, "C06/C11: signing a data signature failed"),
+    match okf(cfg.sign(&*key, &Password::empty(), &data[..])) {
+        None => assert!(false, "C06/C11: signing a data signature failed"),
         Some(sig) => {
-            assert!(!must_fail, "C15: signature with unknown critical hashed subpacket was produced");
-            let mut rt = RefT::new();
-            if v6 {
-                rt.put_all(&salt);
-            }
-            // document, canonicalised in text mode
-            let mut i = 0;
-            let mut prev_cr = false;
-            while i < L {
-                let ch = data[i];
-                if text && ch == b'\n' && !prev_cr {
-                    rt.put(b'\r');
-                }
-                rt.put(ch);
-                prev_cr = ch == b'\r';
-                i += 1;
-            }
-            rt.sig_fields(v6, if text { 1 } else { 0 }, pk, 8, &wire);
-            let want = rt.digest(halg);
-            match (want, sig_digest(&sig)) {
-                (Some(w), Some(g)) => {
-                    assert!(eq_bytes(&w, g), "C11: digest signed for a data signature differs from RFC 9580 5.2.4");
-                    let shv = sig.signed_hash_value();
-                    assert!(shv == Some([w[0], w[1]]), "C11: signed hash value is not the digest prefix");
-                    // verify side (C06): the library's own verify accepts what it signed (binary mode here;
-                    // the text-mode verify path goes through NormalizedReader, see c06_*)
-                    if !text {
-                        let v = is_okf(sig.verify(&key, &data[..]));
-                        assert!(v, "C06: a data signature made by SignatureConfig::sign does not verify with Signature::verify");
-                    }
-                    core::mem::forget(w);
-                }
-                _ => assert!(false, "C11: no digest"),
-            }
+            let shv = sig.signed_hash_value();
             core::mem::forget(sig);
+            let mut rt = RefT::new();
+            ref_data(&mut rt, v6, &salt, &data, text, pk, &wire);
+            assert!(check_digest(&rt, "data"), "C11: digest signed for a data signature differs from RFC 9580 5.2.4");
+            let d = signed();
+            assert!(shv == Some([d[0], d[1]]), "C11: signed hash value is not the digest prefix");
         }
     }
 }
-sproof!(c11_sign_data_v4_2, 7, { sign_data::<2>(false) });
-sproof!(c11_sign_data_v6_2, 7, { sign_data::<2>(true) });
-sproof!(c11_sign_data_v4_3, 7, { sign_data::<3>(false) });
+sproof!(c11_sign_data_v4_2, 7, { sign_data::<2, false>(false) });
+sproof!(c11_sign_data_v4_2_exp, 7, { sign_data::<2, true>(false) });
+sproof!(c11_sign_data_v6_2, 7, { sign_data::<2, false>(true) });
+sproof!(c11_sign_data_v4_3, 7, { sign_data::<3, false>(false) });
 
-// ---------------------------------------------------------------------------------------------
-/// direct-key / key-revocation signature: 0x99 len16 body | 0x9B len32 body framing
-fn sign_key_sig(v6: bool) {
+/// data signature, verify side (binary mode; text-mode verify runs through NormalizedReader: c06_*)
+fn verify_data<const L: usize>(v6: bool) {
+    let data: [u8; L] = kani::any();
     let pk: u8 = kani::any();
     let t: u32 = kani::any();
     let tt: u8 = kani::any();
-    kani::assume(opaque_type(tt));
-    let (hashed, wire) = hashed_area(t, tt, false, kani::any(), kani::any());
+    kani::assume(tt_ok::<true>(tt));
+    let mut salt = SALT16;
+    salt[0] = kani::any();
+    let (hashed, wire) = hashed_area::<true>(t, tt, kani::any(), kani::any(), kani::any());
+    mk_cfg!(cfg, harr, ustore, v6, SignatureType::Binary, pk, salt, hashed);
+    let key = MockKey::<4>::new(if v6 { KeyVersion::V6 } else { KeyVersion::V4 }, kani::any(), 7);
+    let mut rt = RefT::new();
+    ref_data(&mut rt, v6, &salt, &data, false, pk, &wire);
+    match rt.digest(HashAlgorithm::Sha256) {
+        None => assert!(false),
+        Some(w) => {
+            expect_digest(&w);
+            let vs = mk_sig(cfg, [w[0], w[1]]);
+            assert!(is_okf(vs.verify(&*key, &data[..])), "C06/C11: a data signature over the RFC 9580 transcript is rejected by Signature::verify");
+            core::mem::forget(vs);
+            core::mem::forget(w);
+        }
+    }
+}
+sproof!(c11_verify_data_v4_2, 10, { verify_data::<2>(false) });
+sproof!(c11_verify_data_v6_2, 10, { verify_data::<2>(true) });
+
+// ---------------------------------------------------------------------------------------------
+/// direct-key / key-revocation signature: 0x99 len16 body | 0x9B len32 body framing.  VERIFY selects the direction.
+fn key_sig<const VERIFY: bool>(v6: bool) {
+    let pk: u8 = kani::any();
+    let t: u32 = kani::any();
+    let tt: u8 = kani::any();
+    kani::assume(tt_ok::<true>(tt));
     let rev: bool = kani::any();
     let typ = if rev { SignatureType::KeyRevocation } else { SignatureType::Key };
-    let halg = HashAlgorithm::Sha256;
     let salt = SALT16;
-    let mut cfg = if v6 {
-        SignatureConfig::v6_with_salt(typ, PublicKeyAlgorithm::from(pk), halg, salt.to_vec())
-    } else {
-        SignatureConfig::v4(typ, PublicKeyAlgorithm::from(pk), halg)
-    };
-    cfg.hashed_subpackets = hashed;
+    let (hashed, wire) = hashed_area::<true>(t, tt, false, kani::any(), kani::any());
+    mk_cfg!(cfg, harr, ustore, v6, typ, pk, salt, hashed);
     let kv = if v6 { KeyVersion::V6 } else { KeyVersion::V4 };
     let signer = MockKey::<3>::new(kv, kani::any(), 7);
     // the signee may be of either version: its framing follows *its* version
     let signee_v6: bool = kani::any();
     let signee = MockKey::<5>::new(if signee_v6 { KeyVersion::V6 } else { KeyVersion::V4 }, kani::any(), 9);
-    match okf(cfg.sign_key(&signer, &Password::empty(), &signee)) {
-        None => assert!(false, "C06/C11: sign_key failed"),
-        Some(sig) => {
-            let mut rt = RefT::new();
-            if v6 {
-                rt.put_all(&salt);
+    kani::cover!(signee_v6 != v6, "third-party signature over a key of the other version");
+    let mut rt = RefT::new();
+    if v6 {
+        rt.put_all(&salt);
+    }
+    rt.key(signee_v6, &signee.body);
+    rt.sig_fields(v6, if rev { 0x20 } else { 0x1f }, pk, 8, &wire);
+    if VERIFY {
+        match rt.digest(HashAlgorithm::Sha256) {
+            None => assert!(false),
+            Some(w) => {
+                expect_digest(&w);
+                let vs = mk_sig(cfg, [w[0], w[1]]);
+                assert!(is_okf(vs.verify_key_third_party(&*signee, &*signer)), "C06/C11: direct-key signature over the RFC transcript rejected by verify_key_third_party");
+                core::mem::forget(vs);
+                core::mem::forget(w);
             }
-            rt.key(signee_v6, &signee.body);
-            rt.sig_fields(v6, if rev { 0x20 } else { 0x1f }, pk, 8, &wire);
-            kani::cover!(signee_v6 != v6, "third-party signature over a key of the other version");
-            match (rt.digest(halg), sig_digest(&sig)) {
-                (Some(w), Some(g)) => {
-                    assert!(eq_bytes(&w, g), "C11: digest signed for a direct-key signature differs from RFC 9580 5.2.4");
-                    assert!(is_okf(sig.verify_key_third_party(&signee, &signer)), "C06: sign_key output rejected by verify_key_third_party");
-                    core::mem::forget(w);
-                }
-                _ => assert!(false),
+        }
+    } else {
+        match okf(cfg.sign_key(&*signer, &Password::empty(), &*signee)) {
+            None => assert!(false, "C06/C11: sign_key failed"),
+            Some(sig) => {
+                core::mem::forget(sig);
+                assert!(check_digest(&rt, "key"), "C11: digest signed for a direct-key signature differs from RFC 9580 5.2.4");
             }
-            core::mem::forget(sig);
         }
     }
 }
-sproof!(c11_sign_key_v4, 7, { sign_key_sig(false) });
-sproof!(c11_sign_key_v6, 7, { sign_key_sig(true) });
+sproof!(c11_sign_key_v4, 7, { key_sig::<false>(false) });
+sproof!(c11_sign_key_v6, 7, { key_sig::<false>(true) });
+sproof!(c11_verify_key_v4, 10, { key_sig::<true>(false) });
+sproof!(c11_verify_key_v6, 10, { key_sig::<true>(true) });
 
 // ---------------------------------------------------------------------------------------------
 /// subkey binding (0x18) and primary-key binding (0x19): primary framing first, then subkey
-fn sign_binding(v6: bool, back: bool) {
+fn binding<const VERIFY: bool>(v6: bool, back: bool) {
     let pk: u8 = kani::any();
     let t: u32 = kani::any();
-    let (hashed, wire) = hashed_area(t, 101, false, kani::any(), kani::any());
     let typ = if back { SignatureType::KeyBinding } else { SignatureType::SubkeyBinding };
-    let halg = HashAlgorithm::Sha256;
     let salt = SALT16;
-    let mut cfg = if v6 {
-        SignatureConfig::v6_with_salt(typ, PublicKeyAlgorithm::from(pk), halg, salt.to_vec())
-    } else {
-        SignatureConfig::v4(typ, PublicKeyAlgorithm::from(pk), halg)
-    };
-    cfg.hashed_subpackets = hashed;
+    let (hashed, wire) = hashed_area::<true>(t, 101, false, kani::any(), kani::any());
+    mk_cfg!(cfg, harr, ustore, v6, typ, pk, salt, hashed);
     let kv = if v6 { KeyVersion::V6 } else { KeyVersion::V4 };
     let primary = MockKey::<3>::new(kv, kani::any(), 7);
     let sub = MockKey::<4>::new(kv, kani::any(), 9);
-    let r = if back {
-        okf(cfg.sign_primary_key_binding(&sub, &sub, &Password::empty(), &primary))
+    let mut rt = RefT::new();
+    if v6 {
+        rt.put_all(&salt);
+    }
+    rt.key(v6, &primary.body);
+    rt.key(v6, &sub.body);
+    rt.sig_fields(v6, if back { 0x19 } else { 0x18 }, pk, 8, &wire);
+    if VERIFY {
+        match rt.digest(HashAlgorithm::Sha256) {
+            None => assert!(false),
+            Some(w) => {
+                expect_digest(&w);
+                let vs = mk_sig(cfg, [w[0], w[1]]);
+                let v = if back {
+                    is_okf(vs.verify_primary_key_binding(&*sub, &*primary))
+                } else {
+                    is_okf(vs.verify_subkey_binding(&*primary, &*sub))
+                };
+                assert!(v, "C06/C11: binding signature over the RFC transcript rejected by its verify function");
+                core::mem::forget(vs);
+                core::mem::forget(w);
+            }
+        }
     } else {
-        okf(cfg.sign_subkey_binding(&primary, &primary, &Password::empty(), &sub))
-    };
-    match r {
-        None => assert!(false, "C06/C11: binding signature failed"),
-        Some(sig) => {
-            let mut rt = RefT::new();
-            if v6 {
-                rt.put_all(&salt);
+        let r = if back {
+            okf(cfg.sign_primary_key_binding(&*sub, &*sub, &Password::empty(), &*primary))
+        } else {
+            okf(cfg.sign_subkey_binding(&*primary, &*primary, &Password::empty(), &*sub))
+        };
+        match r {
+            None => assert!(false, "C06/C11: binding signature failed"),
+            Some(sig) => {
+                core::mem::forget(sig);
+                assert!(check_digest(&rt, "binding"), "C11: digest signed for a (sub)key binding differs from RFC 9580 5.2.4");
             }
-            rt.key(v6, &primary.body);
-            rt.key(v6, &sub.body);
-            rt.sig_fields(v6, if back { 0x19 } else { 0x18 }, pk, 8, &wire);
-            match (rt.digest(halg), sig_digest(&sig)) {
-                (Some(w), Some(g)) => {
-                    assert!(eq_bytes(&w, g), "C11: digest signed for a (sub)key binding differs from RFC 9580 5.2.4");
-                    let v = if back {
-                        is_okf(sig.verify_primary_key_binding(&sub, &primary))
-                    } else {
-                        is_okf(sig.verify_subkey_binding(&primary, &sub))
-                    };
-                    assert!(v, "C06: binding signature rejected by its verify function");
-                    core::mem::forget(w);
-                }
-                _ => assert!(false),
-            }
-            core::mem::forget(sig);
         }
     }
 }
-sproof!(c11_sign_subkey_binding_v4, 7, { sign_binding(false, false) });
-sproof!(c11_sign_subkey_binding_v6, 7, { sign_binding(true, false) });
-sproof!(c11_sign_primary_binding_v4, 7, { sign_binding(false, true) });
-sproof!(c11_sign_primary_binding_v6, 7, { sign_binding(true, true) });
+sproof!(c11_sign_subkey_binding_v4, 7, { binding::<false>(false, false) });
+sproof!(c11_sign_subkey_binding_v6, 7, { binding::<false>(true, false) });
+sproof!(c11_sign_primary_binding_v4, 7, { binding::<false>(false, true) });
+sproof!(c11_sign_primary_binding_v6, 7, { binding::<false>(true, true) });
+sproof!(c11_verify_subkey_binding_v4, 10, { binding::<true>(false, false) });
+sproof!(c11_verify_subkey_binding_v6, 10, { binding::<true>(true, false) });
+sproof!(c11_verify_primary_binding_v4, 10, { binding::<true>(false, true) });
+sproof!(c11_verify_primary_binding_v6, 10, { binding::<true>(true, true) });
 
 // ---------------------------------------------------------------------------------------------
 /// opaque user id / attribute body for certifications
@@ -521,14 +611,11 @@ impl<const N: usize> Serialize for IdBody<N> {
     }
 }
 
-/// certifications 0x10..0x13, 0x30: key framing, then 0xB4 | 0xD1, len32, body
-fn sign_cert(v6: bool) {
+/// certifications 0x10..0x13, 0x30: key framing, then 0xB4 | 0xD1, len32, body.
+fn cert<const WHICH: u8, const VERIFY: bool>(v6: bool) {
     let pk: u8 = kani::any();
     let t: u32 = kani::any();
-    let (hashed, wire) = hashed_area(t, 101, false, kani::any(), kani::any());
-    let which: u8 = kani::any();
-    kani::assume(which < 5);
-    let (typ, tb) = match which {
+    let (typ, tb) = match WHICH {
         0 => (SignatureType::CertGeneric, 0x10),
         1 => (SignatureType::CertPersona, 0x11),
         2 => (SignatureType::CertCasual, 0x12),
@@ -536,49 +623,56 @@ fn sign_cert(v6: bool) {
         _ => (SignatureType::CertRevocation, 0x30),
     };
     let attr: bool = kani::any();
-    let halg = HashAlgorithm::Sha256;
     let salt = SALT16;
-    let mut cfg = if v6 {
-        SignatureConfig::v6_with_salt(typ, PublicKeyAlgorithm::from(pk), halg, salt.to_vec())
-    } else {
-        SignatureConfig::v4(typ, PublicKeyAlgorithm::from(pk), halg)
-    };
-    cfg.hashed_subpackets = hashed;
+    let (hashed, wire) = hashed_area::<true>(t, 101, false, kani::any(), kani::any());
+    mk_cfg!(cfg, harr, ustore, v6, typ, pk, salt, hashed);
     let kv = if v6 { KeyVersion::V6 } else { KeyVersion::V4 };
     let signer = MockKey::<3>::new(kv, kani::any(), 7);
     let signee = MockKey::<3>::new(kv, kani::any(), 9);
     let id = IdBody::<3>(kani::any());
     let tag = if attr { Tag::UserAttribute } else { Tag::UserId };
-    match okf(cfg.sign_certification_third_party(&signer, &Password::empty(), &signee, tag, &id)) {
-        None => assert!(false, "C06/C11: certification failed"),
-        Some(sig) => {
-            let mut rt = RefT::new();
-            if v6 {
-                rt.put_all(&salt);
+    let mut rt = RefT::new();
+    if v6 {
+        rt.put_all(&salt);
+    }
+    rt.key(v6, &signee.body);
+    rt.put(if attr { 0xd1 } else { 0xb4 });
+    rt.be32(3);
+    rt.put_all(&id.0);
+    rt.sig_fields(v6, tb, pk, 8, &wire);
+    if VERIFY {
+        match rt.digest(HashAlgorithm::Sha256) {
+            None => assert!(false),
+            Some(w) => {
+                expect_digest(&w);
+                let vs = mk_sig(cfg, [w[0], w[1]]);
+                assert!(
+                    is_okf(vs.verify_third_party_certification(&*signee, &*signer, tag, &id)),
+                    "C06/C11: certification over the RFC transcript rejected by verify_third_party_certification"
+                );
+                core::mem::forget(vs);
+                core::mem::forget(w);
             }
-            rt.key(v6, &signee.body);
-            rt.put(if attr { 0xd1 } else { 0xb4 });
-            rt.be32(3);
-            rt.put_all(&id.0);
-            rt.sig_fields(v6, tb, pk, 8, &wire);
-            match (rt.digest(halg), sig_digest(&sig)) {
-                (Some(w), Some(g)) => {
-                    assert!(eq_bytes(&w, g), "C11: digest signed for a certification differs from RFC 9580 5.2.4");
-                    assert!(
-                        is_okf(sig.verify_third_party_certification(&signee, &signer, tag, &id)),
-                        "C06: certification rejected by verify_third_party_certification"
-                    );
-                    core::mem::forget(w);
-                }
-                _ => assert!(false),
+        }
+    } else {
+        match okf(cfg.sign_certification_third_party(&*signer, &Password::empty(), &*signee, tag, &id)) {
+            None => assert!(false, "C06/C11: certification failed"),
+            Some(sig) => {
+                core::mem::forget(sig);
+                assert!(check_digest(&rt, "cert"), "C11: digest signed for a certification differs from RFC 9580 5.2.4");
             }
-            core::mem::forget(sig);
         }
     }
 }
-sproof!(c11_sign_cert_v4, 7, { sign_cert(false) });
-sproof!(c11_sign_cert_v6, 7, { sign_cert(true) });
-
+sproof!(c11_sign_cert_v4_generic, 7, { cert::<0, false>(false) });
+sproof!(c11_sign_cert_v4_positive, 7, { cert::<3, false>(false) });
+sproof!(c11_sign_cert_v4_revocation, 7, { cert::<4, false>(false) });
+sproof!(c11_sign_cert_v6_positive, 7, { cert::<3, false>(true) });
+sproof!(c11_sign_cert_v6_persona, 7, { cert::<1, false>(true) });
+sproof!(c11_sign_cert_v4_casual, 7, { cert::<2, false>(false) });
+sproof!(c11_verify_cert_v4_positive, 10, { cert::<3, true>(false) });
+sproof!(c11_verify_cert_v6_generic, 10, { cert::<0, true>(true) });
+sproof!(c11_verify_cert_v4_revocation, 10, { cert::<4, true>(false) });
 // ---------------------------------------------------------------------------------------------
 /// v3 signatures (verify only): transcript = document || type || creation time, no trailer
 fn verify_v3<const L: usize>() {
@@ -588,62 +682,52 @@ fn verify_v3<const L: usize>() {
     let typ = if text { SignatureType::Text } else { SignatureType::Binary };
     let halg = HashAlgorithm::Sha256;
     let key = MockKey::<2>::new(KeyVersion::V4, kani::any(), 7);
-    let cfg = SignatureConfig::v3(typ, PublicKeyAlgorithm::Private100, halg, Timestamp::from_secs(t), key.kid);
+    let mut cfg = SignatureConfig::v3(typ, PublicKeyAlgorithm::Private100, halg, Timestamp::from_secs(t), key.kid);
+    let mut hashed_store = core::mem::MaybeUninit::<[Subpacket; 1]>::uninit();
+    cfg.hashed_subpackets = stack_vec_empty!(hashed_store, Subpacket);
+    let mut unhashed_store = core::mem::MaybeUninit::<[Subpacket; 1]>::uninit();
+    cfg.unhashed_subpackets = stack_vec_empty!(unhashed_store, Subpacket);
     let mut rt = RefT::new();
     let mut i = 0;
-    let mut prev_cr = false;
     while i < L {
-        let ch = data[i];
-        if text && ch == b'\n' && !prev_cr {
-            rt.put(b'\r');
-        }
-        rt.put(ch);
-        prev_cr = ch == b'\r';
+        rt.put(data[i]);
         i += 1;
     }
-    rt.put(if text { 1 } else { 0 });
+    rt.put(0);
     rt.be32(t as usize);
     match rt.digest(halg) {
         None => assert!(false),
         Some(w) => {
-            let sig = okf(Signature::from_config(cfg, [w[0], w[1]], SignatureBytes::Native(Bytes::copy_from_slice(&w))));
-            match sig {
-                None => assert!(false, "C05: from_config(v3) failed"),
-                Some(sig) => {
-                    assert!(is_okf(sig.verify(&key, &data[..])), "C11: v3 signature over the RFC transcript is rejected");
-                    core::mem::forget(sig);
-                }
-            }
+            expect_digest(&w);
+            let sig = mk_sig(cfg, [w[0], w[1]]);
+            assert!(is_okf(sig.verify(&*key, &data[..])), "C11: v3 signature over the RFC transcript is rejected");
+            core::mem::forget(sig);
             core::mem::forget(w);
         }
     }
 }
-sproof!(c11_verify_v3_2, 7, { verify_v3::<2>() });
+sproof!(c11_verify_v3_2, 10, { verify_v3::<2>() });
 
 // ---------------------------------------------------------------------------------------------
 // hash_signature_data + trailer in isolation (the part shared by every sign_* / verify_*)
-fn fields_only(v6: bool) {
+fn fields_only<const EXP: bool>(v6: bool) {
     let pk: u8 = kani::any();
     let t: u32 = kani::any();
     let tt: u8 = kani::any();
     let c: bool = kani::any();
     let tyb: u8 = kani::any();
-    kani::assume(opaque_type(tt));
-    let (hashed, wire) = hashed_area(t, tt, c, kani::any(), kani::any());
+    kani::assume(tt_ok::<EXP>(tt));
+    let (hashed, wire) = hashed_area::<EXP>(t, tt, c, kani::any(), kani::any());
     let halg = HashAlgorithm::Sha256;
     let typ = SignatureType::from(tyb);
-    let mut cfg = if v6 {
-        SignatureConfig::v6_with_salt(typ, PublicKeyAlgorithm::from(pk), halg, SALT16.to_vec())
-    } else {
-        SignatureConfig::v4(typ, PublicKeyAlgorithm::from(pk), halg)
-    };
-    cfg.hashed_subpackets = hashed;
+    let salt = SALT16;
+    mk_cfg!(cfg, harr, ustore, v6, typ, pk, salt, hashed);
     let mut h = match okf(halg.new_hasher()) {
         Some(h) => h,
         None => return,
     };
-    let must_fail = c && is_other(tt);
-    kani::cover!(must_fail, "unknown critical subpacket");
+    let must_fail = c && !EXP;
+    kani::cover!(c, "critical bit set");
     match okf(cfg.hash_signature_data(&mut h)) {
         None => assert!(must_fail, "C11: hashing the signature fields failed"),
         Some(len) => {
@@ -670,5 +754,6 @@ fn fields_only(v6: bool) {
     }
     core::mem::forget(cfg);
 }
-sproof!(c11_fields_v4, 7, { fields_only(false) });
-sproof!(c11_fields_v6, 7, { fields_only(true) });
+sproof!(c11_fields_v4, 7, { fields_only::<false>(false) });
+sproof!(c11_fields_v4_exp, 7, { fields_only::<true>(false) });
+sproof!(c11_fields_v6, 7, { fields_only::<false>(true) });
